@@ -65,30 +65,6 @@ Proof.
   destruct (fpage (attr c) =? f1); assumption.
 Qed.
 
-(* bit 3 of the attribute byte is the font page in 512-character mode *)
-Lemma page_bit_sweep :
-  forallb (fun il => forallb (fun x =>
-     (fpage (attr (decode_char il true 0 (N.lor (N.land x ENC_MASK) ENC_PAGE_BIT))) =? 1)
-     && (fpage (attr (decode_char il true 0 (N.lor (N.land x ENC_MASK) ENC_NOPAGE_BIT))) =? 0)) (nrange 256))
-    [Unlimited; Blink; Ice] = true.
-Proof. vm_compute. reflexivity. Qed.
-
-Lemma decode_page_code il fx c1 c2 a : fpage (attr (decode_char il fx c1 a)) = fpage (attr (decode_char il fx c2 a)).
-Proof. unfold decode_char. destruct ((DEC_FG_LIMIT <? fg (from_u8 a il)) && fx); reflexivity. Qed.
-
-Lemma font_page_survives_proof : forall ic il f0 f1 c,
-  fpage (attr (decode_char il true (ch c) (encode_attr [f0; f1] ic c))) = if fpage (attr c) =? f1 then 1 else 0.
-Proof.
-  intros. rewrite (decode_page_code il true (ch c) 0).
-  pose proof page_bit_sweep as H. rewrite forallb_forall in H.
-  assert (Hil : In il [Unlimited; Blink; Ice]) by (destruct il; simpl; tauto).
-  specialize (H il Hil).
-  pose proof (nrange_forallb _ 256 H _ (as_u8_lt (attr c) ic)) as Hb. cbv beta in Hb.
-  apply andb_prop in Hb. destruct Hb as [H1 H2]. apply N.eqb_eq in H1, H2.
-  unfold encode_attr. cbn [length]. change (N.of_nat 2 =? ENC_FONTS_LEN) with true. cbv iota.
-  destruct (fpage (attr c) =? f1); assumption.
-Qed.
-
 (* ------------------------------------------------------------------------------------------------------------ *)
 (* 2. the specification decoder                                                                                    *)
 
@@ -234,8 +210,9 @@ Qed.
 (* ------------------------------------------------------------------------------------------------------------ *)
 (* 3. the compressor, for every look-ahead oracle                                                                  *)
 
-Lemma RUN_MAX_is_64 : RUN_MAX = 64.
-Proof. reflexivity. Qed.
+(* all the proofs need from the run limit of compress_backtrack: a count fits the 6-bit field *)
+Lemma RUN_MAX_le_64 : RUN_MAX <= 64.
+Proof. vm_compute. discriminate. Qed.
 
 Lemma byte_lt b : is_byte b = true <-> b < 256.
 Proof. unfold is_byte. apply N.ltb_lt. Qed.
@@ -326,9 +303,9 @@ Section Compressor.
     | MFull => ch cur = ch (run_ch s) /\ attr cur = attr (run_ch s)
     end.
   Proof.
-    unfold end_run_of. rewrite RUN_MAX_is_64.
-    destruct (64 <=? run_count s) eqn:Hmax; [discriminate|]. apply N.leb_gt in Hmax.
-    intro H. split; [exact Hmax|]. destruct (run_mode s).
+    unfold end_run_of. pose proof RUN_MAX_le_64 as Hle.
+    destruct (RUN_MAX <=? run_count s) eqn:Hmax; [discriminate|]. apply N.leb_gt in Hmax.
+    intro H. split; [lia|]. destruct (run_mode s).
     - exact I.
     - destruct (negb (ch cur =? ch (run_ch s)) || negb (page_eqb cur (run_ch s))) eqn:E; [discriminate|].
       apply orb_false_elim in E. destruct E as [E _]. apply negb_false_iff in E. apply N.eqb_eq in E. exact E.
@@ -789,8 +766,8 @@ End ReaderProofs.
 (* ------------------------------------------------------------------------------------------------------------ *)
 (* 6. count_length never overflows its u8 run counter                                                              *)
 
-Lemma RUN_MAX_CL_is_64 : RUN_MAX_CL = 64.
-Proof. reflexivity. Qed.
+Lemma RUN_MAX_CL_le_254 : RUN_MAX_CL <= 254.
+Proof. vm_compute. discriminate. Qed.
 
 Lemma count_length_cons m rc er cnt cur rest acc ovf :
   count_length m rc er cnt (cur :: rest) acc ovf =
@@ -809,12 +786,15 @@ Proof.
   induction cs as [|cur rest IH]; intros m rc cnt acc Hc; [reflexivity|].
   rewrite count_length_cons. cbv zeta.
   set (e := (0 <? cnt) && match cl_end_run m rc None cnt cur rest with Some true => true | _ => false end).
-  assert (He : 64 <= cnt -> e = true).
-  { intro H. unfold e, cl_end_run. rewrite RUN_MAX_CL_is_64.
-    replace (64 <=? cnt) with true by (symmetry; apply N.leb_le; exact H).
+  pose proof RUN_MAX_CL_le_254 as Hle.
+  assert (He : RUN_MAX_CL <= cnt -> 0 < cnt -> e = true).
+  { intros H H0. unfold e, cl_end_run.
+    replace (RUN_MAX_CL <=? cnt) with true by (symmetry; apply N.leb_le; exact H).
     replace (0 <? cnt) with true by (symmetry; apply N.ltb_lt; lia). reflexivity. }
-  assert (Hn : (if e then 0 else cnt) + 1 <= 64).
-  { destruct e; [lia|]. destruct (N.le_gt_cases 64 cnt) as [H|H]; [specialize (He H); discriminate|lia]. }
+  assert (Hn : (if e then 0 else cnt) + 1 <= 255).
+  { destruct e; [lia|]. destruct (N.le_gt_cases RUN_MAX_CL cnt) as [H|H]; [|lia].
+    destruct (N.eq_dec cnt 0) as [->|Hz]; [lia|]. assert (H0 : 0 < cnt) by lia.
+    specialize (He H H0). discriminate. }
   replace (255 <? (if e then 0 else cnt) + 1) with false by (symmetry; apply N.ltb_ge; lia).
   cbn [orb]. apply IH. lia.
 Qed.
@@ -867,4 +847,58 @@ Proof.
   exists [199; 65; 7]. exists [65; 7; 65; 7; 65; 7; 65; 7; 65; 15; 65; 15; 65; 15; 65; 15].
   split; [vm_compute; reflexivity|]. split; [vm_compute; reflexivity|].
   vm_compute. intro H. discriminate H.
+Qed.
+
+(* ------------------------------------------------------------------------------------------------------------ *)
+(* 8. where the reader puts the cells: the i-th set_char goes to column i mod width, line i / width                *)
+Local Open Scope Z_scope.
+
+Lemma advn_closed w : (1 <= w) -> forall n, advn w (0, 0) n = (Z.of_nat n mod w, Z.of_nat n / w).
+Proof.
+  intros Hw. 
+  assert (G : forall n p k, 0 <= k -> p = (k mod w, k / w) -> advn w p n = ((k + Z.of_nat n) mod w, (k + Z.of_nat n) / w)).
+  { induction n as [|n IH]; intros p k Hk ->.
+    - cbn [advn]. rewrite Z.add_0_r. reflexivity.
+    - cbn [advn]. rewrite (IH _ (k + 1)); [| lia |].
+      + f_equal; f_equal; lia.
+      + unfold advance. cbn [fst snd].
+        pose proof (Z.mod_pos_bound k w ltac:(lia)) as Hb.
+        destruct (k mod w + 1 >=? w) eqn:E.
+        * apply Z.geb_le in E. assert (Hm : k mod w = w - 1) by lia.
+          pose proof (Z.div_mod k w ltac:(lia)) as Hd.
+          assert (k + 1 = w * (k / w + 1) + 0) by lia.
+          f_equal.
+          -- apply (Z.mod_unique_pos _ _ (k / w + 1) 0); lia.
+          -- apply (Z.div_unique_pos _ _ (k / w + 1) 0); lia.
+        * rewrite Z.geb_leb in E. apply Z.leb_gt in E.
+          pose proof (Z.div_mod k w ltac:(lia)) as Hd.
+          f_equal.
+          -- apply (Z.mod_unique_pos _ _ (k / w) (k mod w + 1)); lia.
+          -- apply (Z.div_unique_pos _ _ (k / w) (k mod w + 1)); lia. }
+  intro n. rewrite (G n (0,0) 0); [reflexivity|lia|]. rewrite Z.mod_0_l, Z.div_0_l by lia. reflexivity.
+Qed.
+
+Lemma trace_nth il fixed w : forall cells p i q, nth_error cells i = Some q ->
+  nth_error (trace il fixed w p cells) i = Some (put il fixed (advn w p i) (fst q) (snd q)).
+Proof.
+  induction cells as [|c t IH]; intros p i q H; [destruct i; discriminate|].
+  destruct i as [|i]; cbn [nth_error trace advn] in *.
+  - inversion H; subst. reflexivity.
+  - apply IH. exact H.
+Qed.
+
+Lemma compressed_load_positions_proof : forall il fixed o fonts ic w rows cb,
+  Forall (fun r => length r = w) rows -> (1 <= w)%nat -> compress_with o fonts ic rows = Ok cb ->
+  snd (read_data_compressed il fixed (Z.of_nat w) cb) = ROk /\
+  forall i c, nth_error (concat rows) i = Some c ->
+    nth_error (fst (read_data_compressed il fixed (Z.of_nat w) cb)) i =
+    Some (mkwr (Z.of_nat i mod Z.of_nat w) (Z.of_nat i / Z.of_nat w) (decode_char il fixed (ch c) (encode_attr fonts ic c))).
+Proof.
+  intros il fixed o fonts ic w rows cb Hw H1 Hc.
+  pose proof (compress_with_sound_proof o fonts ic w rows cb Hw Hc) as Hd.
+  rewrite (reader_refines_spec_proof il fixed (Z.of_nat w) _ _ _ _ Hd). cbn [fst snd]. split; [reflexivity|].
+  intros i c Hi. rewrite <- concat_map.
+  rewrite (trace_nth il fixed (Z.of_nat w) _ (0, 0) i (enc fonts ic c)).
+  - rewrite advn_closed by lia. reflexivity.
+  - rewrite nth_error_map, Hi. reflexivity.
 Qed.
